@@ -602,3 +602,25 @@ Proof.
     destruct (nx pw); unfold erase_res, erase; cbn [thr top nxt resumed stk];
       do 3 f_equal; apply erase_set_nth; reflexivity.
 Qed.
+
+(* ------------------------------------------------------------------------------------------ *)
+(* used by the auto-reset event (Proto/AutoResetProofs.v): a waiter enters "popped-pending or
+   resumed" only through a step that leaves the event signalled; no step other than a reset
+   clears the flag *)
+Lemma step_sigP t s s' evs w :
+  Forall (th_ok (nxt s)) (thr s) -> step t s = Some (s', evs) ->
+  (forall p ok, ~ In (EResetCas p ok) evs) ->
+  1 <= cnt w (pending s') + cnt w (resumed s') ->
+  (1 <= cnt w (pending s) + cnt w (resumed s) /\ is_sig (top s') = is_sig (top s)) \/
+  is_sig (top s') = true.
+Proof.
+  intros Hth H Hnr HP.
+  step_cases H.
+  all: rewrite Forall_mid in *; destruct Hth as (Hl1 & Hme & Hl2).
+  all: try (exfalso; eapply Hnr; left; reflexivity).
+  all: norm.
+  all: lk.
+  all: try (right; reflexivity).
+  all: left; split; [eqs; lia|]; cbn; try reflexivity.
+  all: destruct tp; cbn; congruence.
+Qed.
